@@ -367,8 +367,8 @@ fn mode_c03(seed: u64) {
             let (tx, rx) = std::sync::mpsc::channel();
             let owned: Vec<Vec<u8>> = pieces.iter().map(|p| p.to_vec()).collect();
             std::thread::spawn(move || { let mut d = ChunkDeserializer::new(); let refs: Vec<&[u8]> = owned.iter().map(|v| &v[..]).collect(); let r = real_decode(&mut d, &refs); let _ = tx.send(r.map(|v| v.len())); });
-            match rx.recv_timeout(std::time::Duration::from_secs(20)) {
-                Err(_) => witness(format!("[c03] arbitrary chunk sequence {} ({} pieces): the deserializer did not return within 20 s", desc.join(" "), pieces.len())),
+            match rx.recv_timeout(std::time::Duration::from_secs(60)) {
+                Err(_) => witness(format!("[c03] arbitrary chunk sequence {} ({} pieces): the deserializer did not return within 60 s", desc.join(" "), pieces.len())),
                 Ok(Err(e)) if e.contains("PANIC") => witness(format!("[c03] arbitrary chunk sequence {} ({} pieces): {}", desc.join(" "), pieces.len(), e)),
                 Ok(_) => {}
             }
